@@ -4,6 +4,7 @@ import (
 	"bytes"
 
 	"github.com/libp2p/go-libp2p/core/peer"
+	"github.com/libp2p/go-libp2p/core/record"
 )
 
 // C18: constructor output is accepted and returns the fields it was built from
@@ -51,5 +52,35 @@ func VerifC18_ConcurrentMake() {
 	}
 	if rb.okRead {
 		verif_Assert(rb.id == idB && bytes.Equal(rb.mh, mhB) && bytes.Equal(rb.ctx, ctxB), "a request returns the fields it was built from, not those of a concurrent request")
+	}
+}
+
+// c18foreign is an ingest request sealed by another implementation: same
+// payload type and serialisation, its own idea of the envelope domain.
+type c18foreign struct {
+	IngestRequest
+	domain string
+}
+
+func (r *c18foreign) Domain() string { return r.domain }
+
+// C18 (expected domain): the ingest envelope domain is the protocol constant
+// "indexer-ingest-request-record". A request the named provider sealed for that
+// domain is accepted whoever built the envelope; one sealed for any other
+// domain string (e.g. the payload-type string) is rejected.
+func VerifC18_ProtocolDomain() {
+	priv, id := c18key()
+	domain := []string{"indexer-ingest-request-record", "indexer-ingest-request", "libp2p-peer-record", ""}[verif_Choose("sealedForDomain", 0, 3)]
+	rec := &c18foreign{IngestRequest{ProviderID: id, Multihash: verif_Bytes("multihash", 2), Addrs: []string{"/ip4/1.2.3.4/tcp/5"}}, domain}
+	env, err := record.Seal(rec, priv)
+	verif_Assume(err == nil)
+	data, err := env.Marshal()
+	verif_Assume(err == nil)
+	req, rerr := ReadIngestRequest(data)
+	verif_Reach("read")
+	if domain == "indexer-ingest-request-record" {
+		verif_Assert(rerr == nil && req != nil && req.ProviderID == id, "a request sealed by the named provider for the ingest protocol domain is accepted")
+	} else {
+		verif_Assert(rerr != nil && req == nil, "a request sealed for any other domain is rejected")
 	}
 }
